@@ -216,6 +216,18 @@ pub fn run(name: &str) -> Option<bool> {
             let r = Model::try_from(Tokenizer::default().parse(text)).unwrap().try_resolve();
             r.is_ok()
         }
+        // a mandatory NULL root component is not counted by the presence protocol: the extension header is missing
+        "null_not_counted" => {
+            use crate::versions::nullseq::Msg;
+            use asn1rs::prelude::*;
+            let mut w = UperWriter::default();
+            w.write(&Msg { a: Null, b: 7, c: Some(9) }).unwrap();
+            // X.691: ext bit 1, b = 0x07, then count-1 (7 bits 0000000), bitmap '1', open type: length 1, 0x09
+            // 1 00000111 0000000 1 00000001 00001001  = 33 bits
+            let want: [u8; 5] = [0b1000_0011, 0b1000_0000, 0b1000_0000, 0b1000_0100, 0b1000_0000];
+            if std::env::var_os("VERIF_PANIC_MSG").is_some() { eprintln!("bits={} bytes={:02x?}", w.bit_len(), w.byte_content()); }
+            !(w.bit_len() == 33 && w.byte_content() == &want[..])
+        }
         _ => return None,
     })
 }
